@@ -16,10 +16,22 @@ import (
 
 // MakePIDs builds sorted party ids from the given keys (the harness never uses
 // tss.GenerateTestPartyIDs, which draws from crypto/rand).
+// PIDStrings selects the free-form id/moniker strings of the party ids of a run: "" unique strings,
+// "blank" all empty, "dup" the same two strings shared by everybody. Parties are identified by their keys;
+// the strings "can be anything" (tss.PartyID). Set and reset by RunScenario.
+var PIDStrings string
+
 func MakePIDs(prefix string, keys []*big.Int) tss.SortedPartyIDs {
 	ids := make(tss.UnSortedPartyIDs, len(keys))
 	for i, k := range keys {
-		ids[i] = tss.NewPartyID(fmt.Sprintf("%s%d", prefix, i), fmt.Sprintf("%s%d", prefix, i), k)
+		s := fmt.Sprintf("%s%d", prefix, i)
+		switch PIDStrings {
+		case "blank":
+			s = ""
+		case "dup":
+			s = []string{"alice", "bob"}[i%2]
+		}
+		ids[i] = tss.NewPartyID(s, s, k)
 	}
 	return tss.SortPartyIDs(ids)
 }
@@ -34,7 +46,20 @@ func clonePIDs(in tss.SortedPartyIDs) tss.SortedPartyIDs {
 	return tss.SortPartyIDs(ids)
 }
 
+// LibConcurrency is the Parameters.SetConcurrency value of every party. Simulated runs use 2 (few library
+// goroutines to park). The race-detector batches use 16: with a small value the library's own worker
+// pools hand their slots from one goroutine to the next, and those hand-overs are happens-before edges
+// that hide races between the workers from the detector (found with seeded C09d).
+var LibConcurrency = 2
+
+// ThresholdHook, when set, may give one party another threshold than the rest (a mis-configured or
+// deviating party running the real code with wrong parameters). Set and reset by the driver of a run.
+var ThresholdHook func(nodeIdx, threshold int) int
+
 func newParams(ec interface{}, n *Node, pids tss.SortedPartyIDs, idx, count, threshold int) *tss.Parameters {
+	if ThresholdHook != nil {
+		threshold = ThresholdHook(idx, threshold)
+	}
 	var p *tss.Parameters
 	switch ec.(string) {
 	case "ed":
@@ -44,7 +69,7 @@ func newParams(ec interface{}, n *Node, pids tss.SortedPartyIDs, idx, count, thr
 	}
 	p.SetRand(n.Rand)
 	p.SetPartialKeyRand(n.PKRand)
-	p.SetConcurrency(2)
+	p.SetConcurrency(LibConcurrency)
 	return p
 }
 
@@ -98,15 +123,25 @@ func (w *World) AddEdSigning(pids tss.SortedPartyIDs, keys []edkg.LocalPartySave
 	return nodes
 }
 
+// oldPartyCount is the partyCount argument of the resharing parameters: the number of participating old
+// members, or, when World.OldPartyCount is set, the number of holders of the key (the library's own
+// resharing tests pass the latter while only a subset takes part).
+func (w *World) oldPartyCount(participating int) int {
+	if w.OldPartyCount > participating {
+		return w.OldPartyCount
+	}
+	return participating
+}
+
 // AddEdResharing: oldPIDs/oldKeys are the participating old members; newKeys the new ids.
 func (w *World) AddEdResharing(oldPIDs tss.SortedPartyIDs, oldKeys []edkg.LocalPartySaveData, oldThreshold int, newIDKeys []*big.Int, newThreshold int) (olds, news []*Node) {
 	newPIDs := MakePIDs("n", newIDKeys)
 	oldCtx, newCtx := tss.NewPeerContext(oldPIDs), tss.NewPeerContext(newPIDs)
 	mk := func(n *Node, pid *tss.PartyID, key edkg.LocalPartySaveData) {
-		params := tss.NewReSharingParameters(tss.Edwards(), oldCtx, newCtx, pid, len(oldPIDs), oldThreshold, len(newPIDs), newThreshold)
+		params := tss.NewReSharingParameters(tss.Edwards(), oldCtx, newCtx, pid, w.oldPartyCount(len(oldPIDs)), oldThreshold, len(newPIDs), newThreshold)
 		params.SetRand(n.Rand)
 		params.SetPartialKeyRand(n.PKRand)
-		params.SetConcurrency(2)
+		params.SetConcurrency(LibConcurrency)
 		end := make(chan *edkg.LocalPartySaveData, 8)
 		n.Party = edrs.NewLocalParty(params, key, n.Out, end)
 		n.PollEnd = func() (interface{}, bool) {
@@ -199,10 +234,10 @@ func (w *World) AddECResharing(oldPIDs tss.SortedPartyIDs, oldKeys []eckg.LocalP
 	newPIDs := MakePIDs("n", newIDKeys)
 	oldCtx, newCtx := tss.NewPeerContext(oldPIDs), tss.NewPeerContext(newPIDs)
 	mk := func(n *Node, pid *tss.PartyID, key eckg.LocalPartySaveData) {
-		params := tss.NewReSharingParameters(tss.S256(), oldCtx, newCtx, pid, len(oldPIDs), oldThreshold, len(newPIDs), newThreshold)
+		params := tss.NewReSharingParameters(tss.S256(), oldCtx, newCtx, pid, w.oldPartyCount(len(oldPIDs)), oldThreshold, len(newPIDs), newThreshold)
 		params.SetRand(n.Rand)
 		params.SetPartialKeyRand(n.PKRand)
-		params.SetConcurrency(2)
+		params.SetConcurrency(LibConcurrency)
 		if o.NoProofMod {
 			params.SetNoProofMod()
 		}
